@@ -183,18 +183,119 @@ theorem C08_disposed_effect_never_runs (st : St) (e : Nat) (hd : EffDead st e) (
 again after that owner has been cleaned up -/
 theorem C08_effects_in_scope_never_run (st : St) (hr : Reachable st.toCore) {o d e : Nat} {er : EffRec}
     {k : Key} (ha : st.aliveB o = true) (hd : Below st.toCore o d) (he : st.effs[e]? = some er)
-    (hheld : er.held = false) (hkey : er.key = some k) (hk : k ∈ nodesOf st.toCore d) (ops : List Op) :
+    (hheld : er.held = false) (hkey : er.key = some k) (hdc : er.dropCid = none) (hrun : immRunning er = false)
+    (hk : k ∈ nodesOf st.toCore d) (ops : List Op) :
     rCount e (runOps (st.lift (cleanupOwner · o)) ops).log = rCount e (cleanupOwner st.toCore o).log :=
   C08_disposed_effect_never_runs (st.lift (cleanupOwner · o)) e
-    ⟨er, he, hheld, fun k' hk' => by
+    ⟨er, he, hheld, fun k' hk' => (by
       rw [hkey] at hk'; cases hk'
-      exact C08_handles_invalidated hr ha hd hk⟩ ops
+      exact C08_handles_invalidated hr ha hd hk), fun cid hc => (by rw [hdc] at hc; cases hc), hrun⟩ ops
 
-/-- a `RenderEffect` (not stored in the arena) never runs again once its handle has been dropped -/
+/-- a `RenderEffect` (`new` / `new_isomorphic`) or an `ImmediateEffect` kept by its handle (`new` /
+`new_mut` / `new_isomorphic`; neither is stored in the arena) never runs again once the handle has been
+dropped — for an `ImmediateEffect`: dropped while none of its runs was in progress, see
+`C08_imm_disposed_midrun_reruns` -/
 theorem C08_dropped_render_effect_never_runs (st : St) (e : Nat) (er : EffRec) (he : st.effs[e]? = some er)
-    (hheld : er.held = false) (hkey : er.key = none) (ops : List Op) :
+    (hheld : er.held = false) (hkey : er.key = none) (hdc : er.dropCid = none) (hrun : immRunning er = false)
+    (ops : List Op) :
     rCount e (runOps st ops).log = rCount e st.log :=
-  C08_disposed_effect_never_runs st e ⟨er, he, hheld, fun k hk => by rw [hkey] at hk; cases hk⟩ ops
+  C08_disposed_effect_never_runs st e
+    ⟨er, he, hheld, fun k hk => (by rw [hkey] at hk; cases hk), fun cid hc => (by rw [hdc] at hc; cases hc),
+      hrun⟩ ops
+
+/-- **what a cleanup closure decides over stops with the scope the closure was registered in**: an
+`ImmediateEffect::new_scoped` effect (the closure owns the effect) and a task spawned by
+`spawn_local_scoped_with_cancellation` (the closure owns its `AbortHandle`) carry the id of that
+cleanup (`dropCid`); the cleanup is registered in scope `d` when the effect / task is created
+(`C08_scoped_hook_registered`), so after a clean-up of `d` or of any owner `o` above it — a `cleanup`,
+the next run of the effect / memo that owns the scope — the effect never runs again and the task never
+runs user code again, whether the clean-up comes before the task's first poll, between two polls or
+after its completion -/
+theorem C08_scope_cleanup_cancels (st : St) (hr : Reachable st.toCore) {o d e : Nat} {er : EffRec}
+    {c : Cleanup} (ha : st.aliveB o = true) (hd : Below st.toCore o d) (he : st.effs[e]? = some er)
+    (hheld : er.held = false) (hkey : er.key = none) (hdc : er.dropCid = some c.cid)
+    (hrun : immRunning er = false) (hc : c ∈ cleanupsOf st.toCore d) (ops : List Op) :
+    rCount e (runOps (st.lift (cleanupOwner · o)) ops).log = rCount e (cleanupOwner st.toCore o).log :=
+  C08_disposed_effect_never_runs (st.lift (cleanupOwner · o)) e
+    ⟨er, he, hheld, fun k hk => (by rw [hkey] at hk; cases hk),
+     fun cid hcid => (by
+      rw [hdc] at hcid; cases hcid
+      exact cleanupOwner_runs hr.treeWF ha hd hc), hrun⟩ ops
+
+/-- `on_cleanup` does not change which owner is current -/
+theorem currentOwner_regCleanup {st : Core} {tag : Nat} {nested : Bool} {drops : Option Nat} {o : Nat}
+    (ho : currentOwner st = some o) : currentOwner (regCleanup st tag nested drops) = some o := by
+  have hlt := currentOwner_lt ho
+  obtain ⟨r, hr⟩ : ∃ r, st.owners[o]? = some r := ⟨st.owners[o], List.getElem?_eq_getElem hlt⟩
+  have hcur : (regCleanup st tag nested drops).cur = st.cur := (regCleanup_spec st tag nested drops).2.2
+  have hal : ∀ x, (regCleanup st tag nested drops).aliveB x = st.aliveB x := by
+    intro x
+    unfold regCleanup
+    simp only
+    have hc' : currentOwner { st with nextCid := st.nextCid + 1 } = some o := ho
+    rw [hc']
+    simp only
+    unfold Core.aliveB
+    rw [modOwner_get]
+    by_cases hx : x = o
+    · subst hx
+      have hr' : ({ st with nextCid := st.nextCid + 1 } : Core).owners[x]? = some r := hr
+      simp [hr', hr]
+    · simp only [hx, if_false]
+  unfold currentOwner at ho ⊢
+  rw [hcur]
+  split at ho
+  · simp only [hal]; exact ho
+  · cases ho
+
+/-- `on_cleanup` puts the closure into the list of the owner that is current -/
+theorem regCleanup_mem (st : Core) (tag : Nat) (nested : Bool) (drops : Option Nat) {o : Nat}
+    (ho : currentOwner st = some o) :
+    (⟨st.nextCid, tag, nested, drops⟩ : Cleanup) ∈ cleanupsOf (regCleanup st tag nested drops) o := by
+  have hlt := currentOwner_lt ho
+  unfold regCleanup
+  simp only
+  have hc' : currentOwner { st with nextCid := st.nextCid + 1 } = some o := ho
+  rw [hc']
+  simp only
+  unfold cleanupsOf
+  rw [modOwner_get]
+  simp only [if_true]
+  obtain ⟨r, hr⟩ : ∃ r, st.owners[o]? = some r := ⟨st.owners[o], List.getElem?_eq_getElem hlt⟩
+  have hr' : ({ st with nextCid := st.nextCid + 1 } : Core).owners[o]? = some r := hr
+  rw [hr']
+  simp
+
+/-- **the hook belongs to the generation that spawns the task**: `spawn_local_scoped_with_cancellation`
+under a current owner `o` registers the closure that owns the `AbortHandle` in `o`'s list *at the
+spawn*, before the task exists — not at the task's first poll, when `o` may already be in its next
+generation — and the task's entry points at exactly that cleanup -/
+theorem C08_scoped_hook_registered (st : St) (b : Nat) {o : Nat} (ho : currentOwner st.toCore = some o) :
+    (newTask st b true).effs[st.effs.length]? = some (taskRec o b true st.obs (some st.nextCid)) ∧
+    (⟨st.nextCid, abortTag st.effs.length, false, none⟩ : Cleanup) ∈ cleanupsOf (newTask st b true).toCore o := by
+  have hcur : currentOwner (regCleanup st.toCore (abortTag st.effs.length) false none) = some o :=
+    currentOwner_regCleanup ho
+  unfold newTask
+  simp only [ho, Option.isSome_some, Bool.and_true, if_true]
+  unfold captureOwner
+  rw [hcur]
+  simp only
+  exact ⟨by simp, regCleanup_mem st.toCore _ false none ho⟩
+
+/-- **an owner that is still held is not dropped**: while a scoped task captured owner `o` (its future
+has not been dropped), the other holders — an owner handle, the task of the effect that owns `o` —
+letting go changes nothing; `o` is dropped when the last holder goes (`finishTask`) -/
+theorem C08_held_owner_survives (st : St) {o e : Nat} {er : EffRec} (he : st.effs[e]? = some er)
+    (ho : er.owner = o) (hk : er.kind.isImm = false) (hd : er.done = false) : releaseOwner st o = st := by
+  have hm : er ∈ st.effs := List.mem_of_getElem? he
+  have : ownerHeld st o = true := by
+    unfold ownerHeld
+    rw [Bool.or_eq_true]
+    refine Or.inr (List.any_eq_true.mpr ⟨er, hm, ?_⟩)
+    unfold effHolds
+    simp [ho, hk, hd]
+  unfold releaseOwner
+  rw [this]; rfl
 
 /-! ## every kind of owner-scoped re-run
 
@@ -220,6 +321,28 @@ theorem C08_effect_rerun_releases (st : St) (hr : Reachable st.toCore) (e : Nat)
     (∀ c, c ∈ cleanupsOf st.toCore d → logHas c.cid (runEffect st e er).log) :=
   ⟨fun k hk => (ArenaLe.reach (runEffect_after st e er)).dead k (C08_handles_invalidated hr ha hd hk),
    fun c hc => logHas_mono (runEffect_after st e er) (cleanupOwner_runs hr.treeWF ha hd hc)⟩
+
+/-- in particular a `RenderEffect::new` / `new_isomorphic` (the re-run in its spawned task) -/
+theorem C08_render_rerun_releases (st : St) (hr : Reachable st.toCore) (e : Nat) (er : EffRec)
+    (_hk : er.kind = EffKind.render) (ha : st.aliveB er.owner = true) {d : Nat}
+    (hd : Below st.toCore er.owner d) :
+    (∀ k, k ∈ nodesOf st.toCore d → KeyDead (runEffect st e er).arena k) ∧
+    (∀ c, c ∈ cleanupsOf st.toCore d → logHas c.cid (runEffect st e er).log) :=
+  C08_effect_rerun_releases st hr e er ha hd
+
+/-- every run of an `ImmediateEffect` (`new` / `new_scoped` / `new_mut` / `new_isomorphic`): the first
+one, a later one, and — there is no hypothesis on `runStart` / `runDone` — **one that starts while an
+earlier run of the same effect is still in progress** (the body wrote one of its own dependencies):
+the interrupted run's cleanups run and its arena values and children are disposed before the new run
+allocates -/
+theorem C08_imm_rerun_releases {ex : St → BOp → St} (hex : SRex ex) (st : St) (hr : Reachable st.toCore)
+    (e : Nat) (er : EffRec) (he : st.effs[e]? = some er)
+    (hrun : (ownerPaused st.toCore er.owner || !er.dirty) = false)
+    (ha : st.aliveB er.owner = true) {d : Nat} (hd : Below st.toCore er.owner d) :
+    (∀ k, k ∈ nodesOf st.toCore d → KeyDead (immUpdate ex st e).arena k) ∧
+    (∀ c, c ∈ cleanupsOf st.toCore d → logHas c.cid (immUpdate ex st e).log) :=
+  ⟨fun k hk => (ArenaLe.reach (immUpdate_after hex st e er he hrun)).dead k (C08_handles_invalidated hr ha hd hk),
+   fun c hc => logHas_mono (immUpdate_after hex st e er he hrun) (cleanupOwner_runs hr.treeWF ha hd hc)⟩
 
 /-- `Owner::with_cleanup` called directly -/
 theorem C08_with_cleanup_releases (st : St) (hr : Reachable st.toCore) (o b : Nat)
@@ -396,7 +519,7 @@ def exOps : List Op :=
 example : (runOps {} exOps).aliveB 0 = true := by decide
 example : Below (runOps {} exOps).toCore 0 1 :=
   Below.step (by decide) (by decide) (Below.refl _)
-example : (⟨0, 7, false⟩ : Cleanup) ∈ cleanupsOf (runOps {} exOps).toCore 1 := by decide
+example : (⟨0, 7, false, none⟩ : Cleanup) ∈ cleanupsOf (runOps {} exOps).toCore 1 := by decide
 example : (⟨0, 0⟩ : Key) ∈ nodesOf (runOps {} exOps).toCore 1 := by decide
 /-- the pass runs the child's cleanup (tag 7) before the parent's (tag 3) and removes the item -/
 example : ((runOps {} (exOps ++ [.act [] (.cleanup 0)])).log.map fun e => match e with | .c t _ _ _ => t | _ => 0) = [7, 3] := by
@@ -424,7 +547,7 @@ example : EffDead (runOps {} [.body [.cleanup 4], .act [] (.x .newOwner), .act [
     .act [] (.cleanup 0)]) 0 :=
   ⟨{ key := some ⟨0, 0⟩, owner := 1, body := 0, dirty := true, firstRun := true, notified := true, woken := true,
      done := false, sources := [], kind := EffKind.plain, held := false }, by decide, rfl,
-   fun k hk => by cases hk; exact ⟨⟨0, none⟩, by decide, by decide⟩⟩
+   fun k hk => (by cases hk; exact ⟨⟨0, none⟩, by decide, by decide⟩), fun cid hc => (by cases hc), rfl⟩
 /-- … and polling its task afterwards logs nothing (the pending first notification is lost) -/
 example : (runOps {} [.body [.cleanup 4], .act [] (.x .newOwner), .act [0] (.x (.effect 0)),
     .act [] (.cleanup 0), .idle]).log = [] := by decide
@@ -454,5 +577,61 @@ theorem C08_detached_child_example :
       .act [] (.cleanup 0)]).arena.get ⟨0, 0⟩ = some (Val.num 3) ∧
     (runOps {} [.act [] (.x .newOwner), .child 0, .act [] (.cleanup 0), .act [1] (.x (.item 3)),
       .act [] (.cleanup 0), .drop 1]).arena.get ⟨0, 0⟩ = none := by decide
+
+/-! ### `ImmediateEffect`s and scoped tasks: concrete histories -/
+
+/-- the recursive shape (`body r0,i7,c5,z0.3,i8`; `x o; in 0 x s1; in 0 x j0`): the first run allocates
+`i0`, registers `c5` and writes its own dependency; the run this triggers — while the first one is
+still in progress — starts with the clean-up (`C5`, `i0` disposed); two generations never coexist -/
+def exImmRec : List Op :=
+  [.body [.read 0, .item 7, .cleanup 5, .write 0 3, .item 8], .act [] (.x .newOwner), .act [0] (.x (.sig 1)),
+   .act [0] (.x (.imm 0 false false))]
+example : (runOps {} exImmRec).log = [Ev.r 0, Ev.c 5 0 1 false, Ev.r 0, Ev.s 0 3, Ev.s 0 1] ∧
+    ((runOps {} exImmRec).items.map (runOps {} exImmRec).arena.get) =
+      [none, some (Val.num 7), some (Val.num 8), some (Val.num 8)] := by decide
+
+/-- **F-C08-3** (regression witness against the code at the pinned commit, `legacyImm := true`):
+`body r0,z0.2; body J0,r0; x o; in 0 x s5; in 0 x j1; set 0 1` — the `new_scoped` effect 1 writes the
+signal its parent 0 reads; the parent's re-run (inside that write) cleans its scope up and so drops
+effect 1, which is still running; the same write then notifies effect 1 itself, and it runs a third
+time although it has been disposed -/
+def exImmMidRun : List Op :=
+  [.body [.read 0, .write 0 2], .body [.imm 0 true false, .read 0], .act [] (.x .newOwner),
+   .act [0] (.x (.sig 5)), .act [0] (.x (.imm 1 false false)), .set 0 1]
+theorem C08_imm_disposed_midrun_reruns :
+    (runOps { legacyImm := true } exImmMidRun).immHit = true ∧
+    rCount 1 (runOps { legacyImm := true } exImmMidRun).log = 3 := by decide
+/-- the same history when `dispose` stops the effect at once (hooks/fix-c08-3.patch): two runs -/
+theorem C08_imm_disposed_midrun_stops :
+    (runOps { legacyImm := false } exImmMidRun).immHit = false ∧
+    rCount 1 (runOps { legacyImm := false } exImmMidRun).log = 2 := by decide
+
+/-- a task spawned with cancellation whose scope is cleaned up before its first poll never runs
+(`body i4; x o; in 0 x K0; cleanup 0; idle`): no `R`, nothing allocated, the future is dropped … -/
+example : rCount 0 (runOps {} [.body [.item 4], .act [] (.x .newOwner), .act [0] (.x (.spawn 0 true)),
+      .act [] (.cleanup 0), .idle]).log = 0 ∧
+    (runOps {} [.body [.item 4], .act [] (.x .newOwner), .act [0] (.x (.spawn 0 true)),
+      .act [] (.cleanup 0), .idle]).items = [] ∧
+    ((runOps {} [.body [.item 4], .act [] (.x .newOwner), .act [0] (.x (.spawn 0 true)),
+      .act [] (.cleanup 0), .idle]).effs.map (·.done)) = [true] := by decide
+/-- … cleaned up between its two polls it runs one segment; without a clean-up both -/
+example : rCount 0 (runOps {} [.body [.item 4], .act [] (.x .newOwner), .act [0] (.x (.spawn 0 true)),
+      .poll 0, .act [] (.cleanup 0), .idle]).log = 1 ∧
+    rCount 0 (runOps {} [.body [.item 4], .act [] (.x .newOwner), .act [0] (.x (.spawn 0 true)),
+      .idle]).log = 2 := by decide
+/-- a task without cancellation keeps the owner it captured alive after the handle has been dropped;
+the owner goes — and what the task allocated under it with it — when the future is dropped -/
+example : ((runOps {} [.body [.item 4], .act [] (.x .newOwner), .act [0] (.x (.spawn 0 false)),
+      .drop 0, .poll 0]).owners.map (·.alive)) = [true] ∧
+    (runOps {} [.body [.item 4], .act [] (.x .newOwner), .act [0] (.x (.spawn 0 false)),
+      .drop 0, .poll 0]).arena.len = 1 ∧
+    ((runOps {} [.body [.item 4], .act [] (.x .newOwner), .act [0] (.x (.spawn 0 false)),
+      .drop 0, .idle]).owners.map (·.alive)) = [false] ∧
+    (runOps {} [.body [.item 4], .act [] (.x .newOwner), .act [0] (.x (.spawn 0 false)),
+      .drop 0, .idle]).arena.len = 0 := by decide
+/-- a `new_scoped` effect stops with the scope it was created in (`body r0,i7; x o; in 0 x s1;
+in 0 x J0; cleanup 0`): its entry satisfies the hypotheses of `C08_disposed_effect_never_runs` -/
+example : (runOps {} [.body [.read 0, .item 7], .act [] (.x .newOwner), .child 0, .act [0] (.x (.sig 1)),
+      .act [1] (.x (.imm 0 true false)), .act [] (.cleanup 1), .set 0 2]).log.count (Ev.r 0) = 1 := by decide
 
 end Leptos.Owner
